@@ -85,6 +85,8 @@ def run_sessions(res, M, mod_json, scns, trace_module, san="plain", flags=(), in
     b = lib.build_module(M, flags=flags, san=san)
     if not b.ok:
         raise Infra("generated code for %s does not build (asn1c rc=%s): %s %s" % (M.name, b.asn1c_rc, b.err, b.asn1c_out[-800:]))
+    for s in scns:
+        s["_flags"] = list(flags)        # (the predicates of recorded findings may depend on the build options)
     evs = lib.convert_events(M, scns, lib.run_driver(b, M, scns))
     byid = {s["id"]: s for s in scns}
     evbyid = {}
@@ -1030,7 +1032,7 @@ def run_threads(b, M, scns, nthreads, env=None, timeout=600):
             open(sp, "w").write("\n".join(lib.script_for(M, part)) + "\n")
             scripts.append(sp)
         e = dict(os.environ)
-        e.update({"TSAN_OPTIONS": "halt_on_error=1:exitcode=66:report_signal_unsafe=0", "ASAN_OPTIONS": "detect_leaks=0"})
+        e.update({"TSAN_OPTIONS": "halt_on_error=1:exitcode=66:report_signal_unsafe=0:history_size=7:suppressions=" + os.path.join(lib.VERIF, "harness", "tsan.supp"), "ASAN_OPTIONS": "detect_leaks=0"})
         e.update(env or {})
         try:
             r = subprocess.run([b.driver, "--threads", os.path.join(work, "ev")] + scripts, env=e, timeout=timeout,
@@ -1089,10 +1091,17 @@ def check_C19(tier, seed):
                 if e["id"] not in dead:
                     seqby.setdefault(e["id"], []).append(strip(e))
             res.notes["sessions_left_out_because_they_crash_alone"] = len(dead)
-            for rep in range(reps):
+            for rep in range(reps + 1):
                 n = [4, 8, 2, 6, 3, 5][rep % 6]
                 order = list(scns)
-                rng.shuffle(order)                      # another deal of sessions to threads = another family of schedules
+                if rep == reps:
+                    # "same code at the same time": sessions ordered by type and dealt round-robin, so that all threads work
+                    # on the same type (the same library functions, the same static data if there were any) side by side;
+                    # a happens-before detector misses a race when unrelated synchronisation lies between the two accesses
+                    order.sort(key=lambda s: (s["ty"], json.dumps(s["plan"], sort_keys=True)))
+                    n = 4
+                else:
+                    rng.shuffle(order)                  # another deal of sessions to threads = another family of schedules
                 evs, prc, outp = run_threads(b, M, order, n)
                 schedules += 1
                 if prc != 0:
